@@ -232,20 +232,32 @@ def lazylist_methods(chk, repo):
     gi = methods["__getitem__"]
     closure = method_closure(methods, "__getitem__")
     gi_nodes = [m for m in closure]
+    from ..flow import path_conditions
+    from .c13 import slice_bound_aliases as _sba
+
+    def negative_test(test, pol, names):
+        """`x < 0` known true / `x >= 0` known false, x an index-like name"""
+        if not (isinstance(test, ast.Compare) and len(test.ops) == 1):
+            return None
+        l, op, r = test.left, test.ops[0], test.comparators[0]
+        if isinstance(r, ast.Name) and isinstance(l, ast.Constant):
+            l, r = r, l
+            op = {ast.Lt: ast.Gt, ast.Gt: ast.Lt, ast.LtE: ast.GtE,
+                  ast.GtE: ast.LtE}.get(type(op), type(op))()
+        if not (isinstance(l, ast.Name) and l.id in names and isinstance(
+                r, ast.Constant) and r.value == 0):
+            return None
+        if (isinstance(op, ast.Lt) and pol) or (
+                isinstance(op, ast.GtE) and not pol):
+            return f"{l.id} < 0"
+        return None
+
     for owner, n in [(m, c) for m in gi_nodes for c in forcing_calls(m)]:
         gi = owner
+        names = {a.arg for a in owner.args.args[1:]} | set(_sba(owner))
         guard = None
-        child = n
-        cur = getattr(n, "_parent", None)
-        while cur is not None and cur is not gi:
-            if isinstance(cur, ast.If) and any(
-                    child is s or any(child is x for x in ast.walk(s))
-                    for s in cur.body):
-                t = ast.unparse(cur.test).replace(" ", "")
-                if t in ("position<0", "stop<0", "step<0"):
-                    guard = t
-            child = cur
-            cur = getattr(cur, "_parent", None)
+        for test, pol in path_conditions(n, owner):
+            guard = guard or negative_test(test, pol, names)
         chk.ob("C14.getitem-forces-only-from-the-end",
                f"LazyList.__getitem__:{ast.unparse(n)[:30]}",
                guard is not None,
